@@ -1431,7 +1431,8 @@ where
         // so header_len / 2 is good enough for identity_len
         let identity_len = { self.config.max_packet_size.get().saturating_sub(remaining) / 2 };
         // and we always answer at least 5, in case the estimation is bonkers
-        usize::max(remaining / identity_len, 5)
+        // (and never more than the u16 member count of a packet can represent)
+        usize::min(usize::max(remaining / identity_len, 5), u16::MAX.into())
     }
 
     fn send_message(
